@@ -88,3 +88,70 @@ pub proof fn lemma_q_cursor(mid: ParsedPacket)
         lemma_pcs_name_end(v, 12);
     }
 }
+
+// ---- deleting the question of a pointer-free packet: the three record runs move up by the length of the question, nothing else changes
+pub proof fn lemma_q_cut(u: Seq<u8>, v: Seq<u8>)
+    requires pf_packet(u), be16(u, 4) == 1, v == set2(splice(u, 12, pf_q_end(u), Seq::<u8>::empty()), 4, 0u16)
+    ensures ({ let d = 12 - pf_q_end(u); let ar = be16(u, 10) as int;
+        pf_packet(v) && be16(v, 4) == 0 && be16(v, 6) == be16(u, 6) && be16(v, 8) == be16(u, 8) && be16(v, 10) == be16(u, 10)
+        && v.len() == u.len() + d && pf_q_end(v) == 12 && pf_e1(v) == pf_e1(u) + d && pf_e2(v) == pf_e2(u) + d
+        && opt_at(v, pf_e2(v), ar) == shift_o(opt_at(u, pf_e2(u), ar), d)
+        && (opt_at(u, pf_e2(u), ar) matches Some(o) ==> pf_e2(u) < o && o + 10 <= u.len() && opt_data(v, o + d) == opt_data(u, o)) }),
+{
+    hide(pf_rr); hide(pf_rrs); hide(pf_rrs_end); hide(pf_n_opt); hide(opts); hide(opt_at); hide(pcs_walk);
+    let o1 = pf_q_end(u); let d = 12 - o1;
+    let an = be16(u, 6) as int; let ns = be16(u, 8) as int; let ar = be16(u, 10) as int; let e1 = pf_e1(u); let e2 = pf_e2(u);
+    lemma_pf_packet_facts(u);
+    lemma_pcs_bounds(u, 12, 0);
+    let w = splice(u, 12, o1, Seq::<u8>::empty());
+    assert(w.len() == u.len() + d);
+    assert forall|i: int| 0 <= i < 12 && i != 4 && i != 5 implies v[i] == u[i] by { assert(w[i] == u[i]); }
+    assert(v[4] == hi8(0u16) && v[5] == lo8(0u16));
+    lemma_be16_update(w, 4, 0u16);
+    assert(be16(v, 6) == be16(u, 6) && be16(v, 8) == be16(u, 8) && be16(v, 10) == be16(u, 10));
+    assert forall|i: int| o1 <= i < u.len() implies u[i] == v[i + d] by { assert(w[i + d] == u[i]); }
+    assert forall|i: int| o1 <= i < pf_rrs_end(u, o1, an) implies u[i] == v[i - o1 + 12] by { }
+    lemma_pf_rrs_shift(u, o1, an, v, 12);
+    assert forall|i: int| e1 <= i < pf_rrs_end(u, e1, ns) implies u[i] == v[i - e1 + (e1 + d)] by { }
+    lemma_pf_rrs_shift(u, e1, ns, v, e1 + d);
+    assert forall|i: int| e2 <= i < pf_rrs_end(u, e2, ar) implies u[i] == v[i - e2 + (e2 + d)] by { }
+    lemma_pf_rrs_shift(u, e2, ar, v, e2 + d);
+    lemma_opt_at_shift(u, e2, ar, v, e2 + d);
+}
+// C08 / C11 (question): the state delete() leaves through the question cursor of a pointer-free packet satisfies the object invariant again
+// (the bytes are then a packet without a question, which the parser's policy rejects: open known finding; the structural view is exact)
+pub proof fn lemma_q_deleted_wf(fin: ParsedPacket, mid: ParsedPacket)
+    requires mid.wf(), pf_packet(mid.bytes()), be16(mid.bytes(), 4) == 1, mid.bytes().len() <= 0xffff,
+        deleted(fin, mid, 12, pf_q_end(mid.bytes()), Section::Question, false),
+    ensures fin.wf(), pf_packet(fin.bytes()), be16(fin.bytes(), 4) == 0, fin.offset_question.is_none(),
+{
+    hide(pf_rr); hide(pf_rrs); hide(pf_rrs_end); hide(pf_n_opt); hide(wf_bytes); hide(opts); hide(opt_at); hide(recs_all); hide(sec_end); hide(n_opt);
+    hide(walk); hide(exp); hide(pcs_walk); hide(rd_ok); hide(pf_packet);
+    let u = mid.bytes(); let v = fin.bytes();
+    lemma_wf_offsets(mid);
+    lemma_pf_packet_facts(u);
+    assert(sec_idx(Section::Question) == 0);
+    assert((be16(u, 4) - 1) as u16 == 0u16);
+    lemma_q_cut(u, v);
+    lemma_pf_packet_facts(v);
+    lemma_pf_wf_bytes(u);
+    lemma_pf_wf_bytes(v);
+    let vu = mid.packet.unwrap(); axiom_vec_len(&vu);
+    let vf = fin.packet.unwrap(); axiom_vec_len(&vf);
+}
+// the question cursor of a well-formed object over a pointer-free packet may be deleted through
+pub proof fn lemma_q_del_ok(mid: ParsedPacket)
+    requires mid.wf(), pf_packet(mid.bytes()), be16(mid.bytes(), 4) == 1, mid.bytes().len() <= 0xffff
+    ensures ({ let u = mid.bytes(); let qe = pcs_end(u, 12).unwrap();
+        del_ok(mid, 12, qe, qe + 4, Section::Question) && name_end(u, 12) == Some(qe) && pf_q_end(u) == qe + 4 }),
+{
+    hide(pf_rr); hide(pf_rrs); hide(pf_rrs_end); hide(pf_n_opt); hide(wf_bytes); hide(opts); hide(opt_at); hide(recs_all); hide(sec_end); hide(n_opt);
+    hide(walk); hide(exp); hide(pcs_walk); hide(rd_ok); hide(skip_walk);
+    let u = mid.bytes();
+    lemma_q_cursor(mid);
+    lemma_wf_offsets(mid);
+    lemma_pf_packet_facts(u);
+    let vu = mid.packet.unwrap(); axiom_vec_len(&vu);
+    assert(section_at(mid, Some(12usize)) is Question);
+    assert(sec_idx(Section::Question) == 0);
+}
